@@ -42,16 +42,10 @@ theorem numTrueBitsBefore_never_panics (ba : BA) (idx : Int) :
   numTrueBitsBeforeE_eq ba idx
 
 /-- Outside `[0, Size())` every bit reads false. -/
-theorem getIndex_false_outside (ba : BA) (i : Int) (h : i < 0 ∨ ba.size ≤ i) : ba.getIndex i = false := by
-  cases ba with
-  | none => rfl
-  | some b =>
-    simp only [BA.size] at h
-    simp only [BA.getIndex, CBA.outOfRange]
-    rcases h with h | h
-    · simp [h]
-    · have : decide (i ≥ b.size) = true := by simpa using h
-      simp [this]
+theorem getIndex_false_outside (ba : BA) (i : Int) (h : i < 0 ∨ ba.size ≤ i) : ba.getIndex i = false :=
+  getIndex_false_outside' ba i h
+
+example : BA.size (some ⟨3, [0xff]⟩) ≤ 5 ∧ BA.getIndex (some ⟨3, [0xff]⟩) 5 = false := by decide
 
 /-- On the shape `NewCompactBitArray(n)` produces, `Size() = n` and `GetIndex(p)` is the stored
     bit `Elems[p/8] & (1 << (7 - p%8))` for every `p < n` (nothing is cut off). -/
@@ -83,6 +77,9 @@ theorem verifyBytes_total {σ : Type} (k : UInt64) (keys : List (Key σ)) (dec :
   · have := List.mem_of_getElem? hk
     exact absurd rfl (hkeys none this)
 
+example : (∀ key ∈ ([some fun _ => true, some fun _ => false] : List (Key Unit)), key ≠ none) := by
+  intro key hk; simp at hk; rcases hk with h | h <;> simp [h]
+
 /-- The only possible panic is the nil-key one, and only with a nil key at a marked position. -/
 theorem verifyBytes_panic_only_nilkey {σ : Type} (k : UInt64) (keys : List (Key σ)) (dec : Option (MSig σ))
     (e : Panic) (h : verifyBytesE k keys dec = .error e) :
@@ -90,6 +87,10 @@ theorem verifyBytes_panic_only_nilkey {σ : Type} (k : UInt64) (keys : List (Key
   rcases verifyBytesE_cases k keys dec with ⟨b, hb⟩ | ⟨h', w⟩
   · rw [hb] at h; cases h
   · rw [h'] at h; cases h; exact ⟨rfl, w⟩
+
+example : ∃ (k : UInt64) (keys : List (Key Unit)) (dec : Option (MSig Unit)) (e : Panic),
+    verifyBytesE k keys dec = .error e :=
+  ⟨1, [none, some fun _ => true], some ⟨some ⟨2, [0x80]⟩, [()]⟩, .nilKey, by decide⟩
 
 /-- Undecodable signature bytes are rejected. -/
 theorem verifyBytes_rejects_undecodable {σ : Type} (k : UInt64) (keys : List (Key σ)) :
@@ -173,6 +174,9 @@ theorem verifyBytes_marked_exceeds_sigs {σ : Type} (k : UInt64) (keys : List (K
   cases hm
   have := allMarkedValid_length h5
   omega
+
+example : ∃ (keys : List (Key Unit)) (m : MSig Unit), m.sigs.length < (marked m.ba keys.length).length :=
+  ⟨[some fun _ => true, some fun _ => true, some fun _ => true], ⟨some ⟨3, [0xe0]⟩, [(), ()]⟩, by decide⟩
 
 /-- the pinned witnesses of the two fixed panics: K = 2, three marked bits, two valid signatures;
     and the smallest malformed shape (`ExtraBitsStored = 9`, no `Elems`, one key). -/
@@ -265,6 +269,23 @@ theorem addSignatureFromPubKey_spec {σ κ : Type} [DecidableEq κ] (m : MSig σ
     simp only [Nat.zero_add] at this
     simp only [addSignatureFromPubKeyE, keyIndex, this]
     rw [if_neg (by omega)]
+
+example : (keyIndex 7 [5, 7, 7] = 1) ∧ (keyIndex 9 [5, 7, 7] = -1) := by decide
+
+/-- `AddSignature` on anything built from `NewMultisig(n)` never panics, for ARBITRARY `int`
+    indices (negative or ≥ n: the signature is appended and nothing is marked). -/
+theorem build_never_panics_any_index {σ : Type} (n : Nat) (adds : List (Int × σ)) :
+    ∃ m, addAllIntE (newMultisig (n : Int)) adds = .ok m ∧ Built n m :=
+  addAllIntE_ok adds ⟨(represents_new n).1, by
+    have h := sigs_length_of_represents (represents_new (σ := σ) n)
+    rw [← h]; exact Nat.le_refl _⟩
+
+/-- e.g. positions 2, 0, then 2 again (replacement): `Sigs` stays in position order. -/
+example : (addAllE (newMultisig ((3 : Nat) : Int)) [(2, 12), (0, 10), (2, 13)]).toOption.map (fun m => (m.sigs, m.ba))
+    = some ([10, 13], some ⟨3, [0xa0]⟩) := by decide
+/-- out-of-range indices append without marking. -/
+example : (addAllIntE (newMultisig ((3 : Nat) : Int)) [(1, 11), (99, 7), (-1, 8)]).toOption.map (fun m => (m.sigs, m.ba))
+    = some ([8, 11, 7], some ⟨3, [0x40]⟩) := by decide
 
 /-- Any sequence of in-range `AddSignature` calls from `NewMultisig(n)` succeeds and yields a
     well-formed multisignature with `len(Sigs) = #marked ≤ n`: the code's extra length conditions
